@@ -217,11 +217,12 @@ def posToCell (o : Ops α) (g : Grid α) (pos : List α) : Except Err Nat :=
 
 /-- the `translated_position` of `CuboidPeriodicCells.translate(cell, relative_cell)`:
 `correct_position_entry((cell.cell_max[d] + cell.cell_min[d]) / 2.0 + relative_cell.cell_min[d], d)`,
-`correct_position_entry(p, d) = p % system_lengths[d]`; cells are given by their list indices -/
+`correct_position_entry(p, d) = (r := p % system_lengths[d]; r if r != system_lengths[d] else 0.0)` (`JF.pywrap`);
+cells are given by their list indices -/
 def translatePos (o : Ops α) : List (Dim α) → Nat → Nat → List α
   | [], _, _ => []
   | D :: Ds, cell, rel =>
-    pymod o ((D.cmax[cell % D.n]! + D.cmin[cell % D.n]!) / o.ofInt 2 + D.cmin[rel % D.n]!) D.len
+    pywrap o ((D.cmax[cell % D.n]! + D.cmin[cell % D.n]!) / o.ofInt 2 + D.cmin[rel % D.n]!) D.len
       :: translatePos o Ds (cell / D.n) (rel / D.n)
 
 /-- `CuboidPeriodicCells.translate(cell, relative_cell)` on list indices -/
